@@ -160,6 +160,7 @@ func runC13(c *Ctx) {
 	c.c13SharedListsCopied()
 	c.c13UpdatesAreAtomic()
 	c.c13OperandsLeftAlone()
+	c.c13QueueDrainedBeforeTheSinkCloses()
 }
 
 // c13Formats: "delivered intact". A message that travels through the format-string position of a printf-like
@@ -1191,4 +1192,69 @@ func (c *Ctx) c13OperandsLeftAlone() {
 			}
 		}
 	}
+}
+
+// c13QueueDrainedBeforeTheSinkCloses (L15): "the ring-buffered asynchronous logger drops messages only when it also reports
+// how many it dropped". Closing the diode is what hands the messages still in the ring to the slow writer: a Close method
+// which closes the slow writer first delivers them to a closed sink — lost, and not reported. Decided on the Close method
+// of every structure of package logs that holds both a queueing writer (a field closed through an io.Closer assertion) and
+// the writer it feeds: the close of the fed writer is not followed, on any path, by the close of the queue.
+func (c *Ctx) c13QueueDrainedBeforeTheSinkCloses() {
+	c.rule("L15", "closing the ring-buffered writer closes the diode (which hands what is still queued to the slow writer) before it closes the slow writer, never after", 1)
+	f := c.fnOpt("logs", "(*DiodeWriter).Close")
+	if f == nil {
+		c.info("L15", "logs.(*DiodeWriter).Close/absent", "-", "the ring-buffered writer has no Close method of its own any more")
+		return
+	}
+	c.FuncsSeen[fname(f)] = true
+	var sinkCloses, queueCloses []*ssa.Call
+	allInstrs(f, func(in ssa.Instruction) {
+		cl, ok := in.(*ssa.Call)
+		if !ok || !cl.Call.IsInvoke() || cl.Call.Method.Name() != "Close" {
+			return
+		}
+		recv := cl.Call.Value
+		for k := 0; k < 6; k++ { // v, ok := x.(io.Closer); v.Close()
+			switch x := recv.(type) {
+			case *ssa.Extract:
+				recv = x.Tuple
+				continue
+			case *ssa.TypeAssert:
+				recv = x.X
+				continue
+			case *ssa.ChangeInterface:
+				recv = x.X
+				continue
+			case *ssa.MakeInterface:
+				recv = x.X
+				continue
+			}
+			break
+		}
+		for _, l := range append(sources(recv, deriveOpts{}), recv) {
+			if _, ok := fieldLoad(l, "DiodeWriter", "slowWriter"); ok {
+				sinkCloses = append(sinkCloses, cl)
+				return
+			}
+			if _, ok := fieldLoad(l, "DiodeWriter", "diodeWriter"); ok {
+				queueCloses = append(queueCloses, cl)
+				return
+			}
+		}
+	})
+	key := fname(f) + "/queue-closed-first"
+	if len(queueCloses) == 0 {
+		c.violate("L15", key, c.pos(f.Pos()), "the diode is never closed: what is queued when the writer is closed is never handed to the slow writer, and its polling goroutine is left behind")
+		return
+	}
+	bad := ""
+	for _, s := range sinkCloses {
+		for _, q := range queueCloses {
+			if pathAvoiding(s, func(ssa.Instruction) bool { return false }, func(i ssa.Instruction) bool { return i == ssa.Instruction(q) }) != nil {
+				bad = c.ipos(s) + " then " + c.ipos(q)
+			}
+		}
+	}
+	c.check(bad == "", "L15", key, c.ipos(queueCloses[0]), "no path closes the slow writer and then the diode",
+		"the slow writer is closed before the diode ("+bad+"): closing the diode hands the messages still in the ring to a writer which is already closed — 100 messages logged before Close() are all lost and none is reported as dropped")
 }
